@@ -237,7 +237,8 @@ func applyDocument(tx stoabs.ReadTx, currentMeta *documentMetadata, newDoc did.D
 	newMeta.PreviousHash = &currentMeta.Hash
 	newMeta.Deactivated = newMeta.Deactivated || currentMeta.Deactivated // once deactivated is always deactivated
 
-	unconsumed := map[string]struct{}{}
+	// keep the order of the current source transactions: the result must not depend on map iteration order
+	var unconsumed []hash.SHA256Hash
 outer:
 	for _, st := range currentMeta.SourceTransactions {
 		for _, ref := range newMeta.PreviousTransaction {
@@ -245,7 +246,7 @@ outer:
 				continue outer
 			}
 		}
-		unconsumed[st.String()] = struct{}{}
+		unconsumed = append(unconsumed, st)
 	}
 	// if new document consumes all the old TXs, just return the new one
 	if len(unconsumed) == 0 {
@@ -253,8 +254,8 @@ outer:
 	}
 
 	txRefReader := tx.GetShelfReader(transactionIndexShelf)
-	for k := range unconsumed {
-		st, _ := hash.ParseHex(k)
+	for _, st := range unconsumed {
+		k := st.String()
 		newMeta.SourceTransactions = append(newMeta.SourceTransactions, st)
 		// get old doc by txRef ...
 		payloadHashBytes, err := txRefReader.Get(stoabs.HashKey(st))
